@@ -1012,6 +1012,27 @@ FAMILIES = {
     "genexp": lambda d: "f(" * d + "QQ for a in b" + ")" * d + "\n",
     "help": lambda d: "(" * d + "QQ?" + ")" * d + "\n",
     "pipe": lambda d: "$(" + " | ".join(["a"] * d) + " | QQ)\n",
+    "lambda_default": lambda d: "lambda a=" * d + "QQ" + ": 0" * d + "\n",
+    "def_default": lambda d: "def f(a=" + "lambda b=" * d + "QQ" + ": 0" * d + "): pass\n",
+    "del_tuple": lambda d: "del " + "(" * d + "QQ" + ",)" * d + "\n",
+    "del_list": lambda d: "del " + "[" * d + "QQ" + "]" * d + "\n",
+    "for_target": lambda d: "for " + "(" * d + "QQ" + ",)" * d + " in y: pass\n",
+    "with_target": lambda d: "with a as " + "(" * d + "QQ" + ",)" * d + ": pass\n",
+    "star_target": lambda d: "[" * d + "*QQ" + "]" * d + " = y\n",
+    "annotation": lambda d: "x: " + "a[" * d + "QQ" + "]" * d + " = 1\n",
+    "decorator_call": lambda d: "@" + "f(" * d + "QQ" + ")" * d + "\ndef g(): pass\n",
+    "return_tuple": lambda d: "def f():\n return " + "(" * d + "QQ" + ",)" * d + "\n",
+    "dict_comp": lambda d: "{" * d + "QQ: 1" + " for k in y}" * d + "\n",
+    "kwarg_nest": lambda d: "f(k=" * d + "QQ" + ")" * d + "\n",
+    "slice_nest": lambda d: "a[" * d + "QQ:" + "]" * d + "\n",
+    "walrus": lambda d: "(a := " * d + "QQ" + ")" * d + "\n",
+    "yield_nest": lambda d: "def f():\n x = " + "(yield " * d + "QQ" + ")" * d + "\n",
+    "fstring_nest": lambda d: "x = " + " + ".join(["f'{a!r:>3}b'"] * d) + " + QQ\n",
+    "match_as": lambda d: "match x:\n case " + "(" * d + "QQ" + " as y)" * d + ": pass\n",
+    "type_params": lambda d: "def f[" + ", ".join(f"T{i}" for i in range(d)) + "](QQ): pass\n",
+    "env_target": lambda d: ", ".join(["$A"] * d) + ", QQ = y\n",
+    "macro_args": lambda d: "f!(" + "(" * d + "a" + ")" * d + ") + QQ\n",
+    "with_macro": lambda d: "with! c:\n" + " x y\n" * d + "QQ\n",
 }
 
 
